@@ -233,7 +233,7 @@ def run(rng, tier, model_ok):
         "evaluations": len(cases) + len(ids), "distinct_nontrivial": len({(c[0], tuple(c[1])) for c in cases}),
         "rule": "all shipped constants (exhaustive): value and unit bytes of serde_cbor vs model, decode back; random rationals with up to 1000-bit "
                 "numerators (CBOR and JSON); every derived unit through every typeable name and random compounds with prefixes and powers; every "
-                "identifier decoded through serde; non-trivial = distinct (kind, input) cases compared byte for byte",
+                "identifier decoded through serde; whole constants with every unit expression alone and next to a second unit; multi-unit maps in reversed and canonical order; non-trivial = distinct (kind, input) cases compared byte for byte",
         "samples": samples, "mismatches": mismatches, "failures": failures,
         "extra": dict(stats, exhaustive=True, exhaustive_domain="shipped constants and derived-unit identifiers"),
     }
